@@ -39,6 +39,9 @@ type Spec struct {
 	Mutators     map[string][]string `json:"mutators"`
 	Requires     map[string][]Req    `json:"requires"`
 	Constructors []string            `json:"constructors"`
+	// Reserved: locations that get a constant even when the field does not exist (yet), so that the
+	// hand-written table can name a field a pending fix will introduce
+	Reserved []string `json:"reserved"`
 }
 
 type Fact struct {
@@ -1009,6 +1012,9 @@ func writeLean(path string, out *Output, spec *Spec) error {
 	}
 	sort.Strings(reqs)
 	for _, r := range reqs {
+		addLoc(r)
+	}
+	for _, r := range spec.Reserved {
 		addLoc(r)
 	}
 	fnSet := map[string]bool{}
